@@ -72,11 +72,15 @@ open S3V.HttpDe in
 /-- a value that is not of the member's type is a client error, never a defaulted or truncated value -/
 theorem C02_ill_typed_rejected {V : Type} (dec : Bytes → Option V) (r : Req) (n : Name) (v : Bytes) (hv : dec v = none) :
     (getAll r.headers n = [v] → parseHeader dec r n = .error .invalidHeader ∧
-        parseOptHeader dec r n = .error .invalidHeader ∧ ∀ req, parseListHeader dec req r n = .error .invalidHeader) ∧
+        parseOptHeader dec r n = .error .invalidHeader ∧
+        (lineItems v = [v] → ∀ req, parseListHeader dec req r n = .error .invalidHeader)) ∧
       (∀ qs, r.query = some qs → getAll qs n = [v] →
         parseQuery dec r n = .error .invalidQuery ∧ parseOptQuery dec r n = .error .invalidQuery) := by
-  refine ⟨fun h => ?_, fun qs hq h => by simp [parseQuery, parseOptQuery, hq, h, hv]⟩
-  simp [parseHeader, parseOptHeader, parseListHeader, h, hv]
+  refine ⟨fun h => ⟨?_, ?_, ?_⟩, fun qs hq h => by simp [parseQuery, parseOptQuery, hq, h, hv]⟩
+  · simp [parseHeader, h, hv]
+  · simp [parseOptHeader, h, hv]
+  · intro hi req
+    simp [parseListHeader, h, hi, hv]
 
 open S3V.HttpDe in
 /-- whatever a statement decodes was present under the member's own wire name: a value sent for one member
@@ -111,6 +115,14 @@ theorem C02_value_comes_from_own_name {V : Type} (dec : Bytes → Option V) (r :
         · cases h
       · cases h
 
+open S3V.HttpDe in
+/-- a list-valued header decodes alike whether its elements are sent on separate lines or comma-joined on one
+    line (what the SDKs send), with optional whitespace around the commas -/
+theorem C02_list_header_comma_joined :
+    lineItems [69, 84, 97, 103, 44, 79, 98, 106, 101, 99, 116, 83, 105, 122, 101, 44, 32, 83, 116, 111, 114, 97, 103, 101, 67, 108, 97, 115, 115]
+      = [[69, 84, 97, 103], [79, 98, 106, 101, 99, 116, 83, 105, 122, 101], [83, 116, 111, 114, 97, 103, 101, 67, 108, 97, 115, 115]] := by
+  decide
+
 /-! non-vacuity of `C02_decode_encode`: two header members and one query member with identity codecs -/
 open S3V.HttpDe S3V.HttpBinding in
 example : decodeAll
@@ -121,7 +133,7 @@ example : decodeAll
       (⟨⟨.listHeader false, [99], some⟩, id⟩ : EB Bytes)].map (·.bind))
     = .ok [.opt (some [1, 2]), .one [3], .many [[4], [5]]] := by
   apply C02_decode_encode
-  · simp [Conf, Conforms, slotValues]
+  · simp [Conf, Conforms, slotValues]; decide
   · simp [Distinct, isHeaderKind]
   · simp [isHeaderKind, getAll]
   · simp [isHeaderKind, getAll]
